@@ -43,7 +43,7 @@ Pool == << {B(1)},             \* t1: f1
            {T(1), B(3)},       \* t3: d1/ f3       (t1 as a subtree)
            {T(1), B(2)},       \* t4: d1/ f2 sub@  (t1 as a subtree, b2 shared with t2, gitlink)
            {T(3), B(1)} >>     \* t5: d3/ f1       (nested: t3 -> t1)
-PoolLink == <<FALSE, FALSE, FALSE, TRUE, FALSE>>
+PoolLink == <<0, 0, 0, -1, 0>>     \* the gitlink of t4; the replay lets it name a commit of the universe as well (TransferOps: lnk)
 
 RECURSIVE Dags(_)
 Dags(k) == IF k = 0 THEN {<<>>} ELSE {Append(d, P) : d \in Dags(k - 1), P \in SUBSET (1..(k - 1))}
